@@ -13,7 +13,7 @@ esac
 rc=0
 for c in "$@"; do
   echo "--- $name: $c"
-  ZL_REPO="$wt" /verif/check "$c" --tier ${TIER:-quick} | grep -v "^  detail" | cut -c1-400
+  ZL_REPO="$wt" /verif/check "$c" --tier ${TIER:-quick} | cut -c1-400
 done
 git -C /repo worktree remove --force "$wt"
 git -C /repo worktree prune
